@@ -220,12 +220,29 @@ def doFsHist : P String := do
   let envs := histEnvs ⟨catShell, [], false⟩ evs (files.reverse, [])
   pure (" ".intercalate (envs.map (fun e => showStr (get e 0) ++ "/" ++ showStr (get e 1))))
 
+/-- insertion sort of strings (canonical order of an answer whose order is unspecified) -/
+def insStr (x : String) : List String → List String
+  | [] => [x]
+  | y :: r => if x ≤ y then x :: y :: r else y :: insStr x r
+def sortStrs : List String → List String
+  | [] => []
+  | x :: r => insStr x (sortStrs r)
+
+/-- `vars.loopmap <n> {key val}*` (the entries of the map, in the order of the FILE) → `<n> {key,val}*` with the
+iterations sorted by their text: the order of a map loop is unspecified, the pairing is not -/
+def doLoopMap : P String := do
+  let n ← nat
+  let es ← many n (do let k ← str; let v ← str; pure (k, v))
+  let its := mapLoop es
+  pure (" ".intercalate (toString its.length :: sortStrs (its.map (fun kv => s!"{showStr kv.1},{showStr kv.2}"))))
+
 def handle (op : String) (args : List String) : Option String :=
   let run (p : P String) := match p.run args with | some (r, []) => some r | _ => none
   match op with
   | "vars.envchain" => run doEnvChain
   | "vars.dotenvchain" => run doDotenvChain
   | "vars.loop" => run doLoop
+  | "vars.loopmap" => run doLoopMap
   | "vars.env" => run doEnv
   | "vars.product" => run doProduct
   -- execution consistency: what each call printed (command and deferred command) must be the values
